@@ -2,6 +2,8 @@ import Fpdec.Kernels.Misc
 import Fpdec.Kernels.IntoFloat
 import Fpdec.Lemmas.IntoFloat
 import Fpdec.Lemmas.IntoFloatNearest
+import Fpdec.Lemmas.Cmp
+import Fpdec.Lemmas.Unary
 import Fpdec.Props.C12_Sites
 
 /-!
@@ -67,5 +69,186 @@ theorem kernel_f64_from (prof : Profile) (d : Dec) : Gen.K.f64_from prof d = int
   Kernels.f64_from_eq prof d
 theorem kernel_f32_from (prof : Profile) (d : Dec) : Gen.K.f32_from prof d = intoFloat prof Spec.FloatFmt.f32 d :=
   Kernels.f32_from_eq prof d
+
+/-! ### algebraic laws
+Representation independence and sign symmetry of the conversion, as corollaries of `into_float_spec`: the spec pattern depends only
+on the quotient `|a| / 10^p` (a common factor cancels in the exponent and in the half-even rounding) and on the sign. -/
+
+theorem log2_key (n d a b a' b' : Nat) (h1 : d * 2 ^ a ≤ n * 2 ^ b) (h2 : n * 2 ^ b' < d * 2 ^ (a' + 1)) :
+    a + b' < a' + 1 + b := by
+  apply Classical.byContradiction
+  intro hc
+  have hc : a' + 1 + b ≤ a + b' := by omega
+  have e1 : d * 2 ^ (a' + 1) * 2 ^ b ≤ d * 2 ^ a * 2 ^ b' := by
+    rw [Nat.mul_assoc, Nat.mul_assoc, ← Nat.pow_add, ← Nat.pow_add]
+    exact Nat.mul_le_mul_left _ (Nat.pow_le_pow_right (by decide) hc)
+  have e2 : d * 2 ^ a * 2 ^ b' ≤ n * 2 ^ b * 2 ^ b' := Nat.mul_le_mul_right _ h1
+  have e3 : n * 2 ^ b' * 2 ^ b < d * 2 ^ (a' + 1) * 2 ^ b := Nat.mul_lt_mul_of_pos_right h2 (Nat.two_pow_pos b)
+  have e4 : n * 2 ^ b * 2 ^ b' = n * 2 ^ b' * 2 ^ b := by ring
+  omega
+
+/-- the exponent of the spec depends only on the quotient -/
+theorem floorLog2Ratio_scale (n d k : Nat) (hn : n ≠ 0) (hd : d ≠ 0) (hk : k ≠ 0) :
+    Spec.floorLog2Ratio (n * k) (d * k) = Spec.floorLog2Ratio n d := by
+  have hkp : 0 < k := Nat.pos_of_ne_zero hk
+  generalize h1 : Spec.floorLog2Ratio (n * k) (d * k) = e1
+  generalize h2 : Spec.floorLog2Ratio n d = e2
+  have s1 := FloatArith.floorLog2Ratio_spec (n * k) (d * k) e1.toNat (-e1).toNat (Nat.mul_ne_zero hn hk) (Nat.mul_ne_zero hd hk)
+    (by rw [h1]; omega)
+  have s2 := FloatArith.floorLog2Ratio_spec n d e2.toNat (-e2).toNat hn hd (by rw [h2]; omega)
+  have s1a : d * 2 ^ e1.toNat ≤ n * 2 ^ (-e1).toNat := by
+    apply Nat.le_of_mul_le_mul_right _ hkp
+    calc d * 2 ^ e1.toNat * k = d * k * 2 ^ e1.toNat := by ring
+      _ ≤ n * k * 2 ^ (-e1).toNat := s1.1
+      _ = n * 2 ^ (-e1).toNat * k := by ring
+  have s1b : n * 2 ^ (-e1).toNat < d * 2 ^ (e1.toNat + 1) := by
+    apply Nat.lt_of_mul_lt_mul_right (a := k)
+    calc n * 2 ^ (-e1).toNat * k = n * k * 2 ^ (-e1).toNat := by ring
+      _ < d * k * 2 ^ (e1.toNat + 1) := s1.2
+      _ = d * 2 ^ (e1.toNat + 1) * k := by ring
+  have k1 := log2_key n d _ _ _ _ s1a s2.2
+  have k2 := log2_key n d _ _ _ _ s2.1 s1b
+  omega
+
+/-- the spec pattern depends only on the quotient: a common factor cancels -/
+theorem rneBits_scale (f : Spec.FloatFmt) (n d k : Nat) (hn : n ≠ 0) (hd : d ≠ 0) (hk : k ≠ 0) :
+    Spec.rneBits f (n * k) (d * k) = Spec.rneBits f n d := by
+  have hkp : 0 < k := Nat.pos_of_ne_zero hk
+  unfold Spec.rneBits
+  simp only [floorLog2Ratio_scale n d k hn hd hk]
+  have e1 : ∀ s, Spec.rhe (n * k) (d * k * 2 ^ s) = Spec.rhe n (d * 2 ^ s) := by
+    intro s
+    rw [show d * k * 2 ^ s = d * 2 ^ s * k by ring]
+    exact FloatArith.rhe_mul_right _ _ _ hkp
+  have e2 : ∀ s, Spec.rhe (n * k * 2 ^ s) (d * k) = Spec.rhe (n * 2 ^ s) d := by
+    intro s
+    rw [show n * k * 2 ^ s = n * 2 ^ s * k by ring]
+    exact FloatArith.rhe_mul_right _ _ _ hkp
+  simp only [e1, e2]
+
+/-- … hence two fractions that are equal by cross-multiplication have the same pattern -/
+theorem rneBits_congr (f : Spec.FloatFmt) (n d n' d' : Nat) (hn : n ≠ 0) (hd : d ≠ 0) (hn' : n' ≠ 0) (hd' : d' ≠ 0)
+    (h : n * d' = n' * d) : Spec.rneBits f n d = Spec.rneBits f n' d' := by
+  rw [← rneBits_scale f n d d' hn hd hd', ← rneBits_scale f n' d' d hn' hd' hd, h, Nat.mul_comm d d']
+
+theorem cross_sign (a b P Q : Int) (hP : 0 < P) (hQ : 0 < Q) (h : a * Q = b * P) : (a < 0 → b < 0) ∧ (a = 0 → b = 0) := by
+  constructor
+  · intro ha
+    apply Classical.byContradiction
+    intro hb
+    have h1 : a * Q < 0 := Int.mul_neg_of_neg_of_pos ha hQ
+    have h2 : 0 ≤ b * P := Int.mul_nonneg (by omega) (Int.le_of_lt hP)
+    omega
+  · intro ha
+    subst ha
+    rw [Int.zero_mul] at h
+    rcases Int.mul_eq_zero.1 h.symm with h | h
+    · exact h
+    · omega
+
+/-- the specification of the conversion depends only on the value `a / 10^p`, not on the representation -/
+theorem spec_into_float_of_equal_values (f : Spec.FloatFmt) (a : Int) (p : Nat) (b : Int) (q : Nat)
+    (h : Spec.cmp a p b q = .eq) : Spec.intoFloat f a p = Spec.intoFloat f b q := by
+  rw [spec_cmp_eq_iff] at h
+  have hP : (0 : Int) < (10 : Int) ^ p := tenPow_pos p
+  have hQ : (0 : Int) < (10 : Int) ^ q := tenPow_pos q
+  obtain ⟨s1, z1⟩ := cross_sign a b _ _ hP hQ h
+  obtain ⟨s2, z2⟩ := cross_sign b a _ _ hQ hP h.symm
+  have hn : a.natAbs * 10 ^ q = b.natAbs * 10 ^ p := by
+    have := congrArg Int.natAbs h
+    simpa [Int.natAbs_mul, Int.natAbs_pow] using this
+  unfold Spec.intoFloat
+  by_cases ha : a = 0
+  · rw [if_pos ha, if_pos (z1 ha)]
+  · have hb : b ≠ 0 := fun e => ha (z2 e)
+    rw [if_neg ha, if_neg hb]
+    have hs : (a < 0) ↔ (b < 0) := ⟨s1, s2⟩
+    rw [rneBits_congr f a.natAbs (10 ^ p) b.natAbs (10 ^ q) (by omega) (Nat.ne_of_gt (Nat.pow_pos (by decide)))
+      (by omega) (Nat.ne_of_gt (Nat.pow_pos (by decide))) hn]
+    simp only [hs]
+
+/-- representation independence: two Decimals of the domain with the same value (e.g. `(a, p)` and `(a·10^k, p+k)`) convert to the
+    same float, bit for bit, in both formats and every profile -/
+theorem into_float_of_equal_values (prof : Profile) (f : Spec.FloatFmt) (hf : f = Spec.FloatFmt.f64 ∨ f = Spec.FloatFmt.f32)
+    (x y : Dec) (hx : Dom x) (hy : Dom y) (h : Spec.cmp x.coeff x.nfrac y.coeff y.nfrac = .eq) :
+    intoFloat prof f x = intoFloat prof f y := by
+  rw [into_float_spec prof f hf x hx, into_float_spec prof f hf y hy, spec_into_float_of_equal_values f _ _ _ _ h]
+
+example : intoFloat Profile.dev .f64 ⟨1, 1⟩ = intoFloat Profile.dev .f64 ⟨1000, 4⟩ ∧
+    intoFloat Profile.dev .f32 ⟨-25, 1⟩ = intoFloat Profile.dev .f32 ⟨-2500, 3⟩ ∧
+    intoFloat Profile.release .f64 ⟨7, 0⟩ = intoFloat Profile.release .f64 ⟨7000000000000000000, 18⟩ := by decide
+
+/-! sign symmetry -/
+
+theorem testBit_false_of_lt {r k : Nat} (h : r < 2 ^ k) : r.testBit k = false := Nat.testBit_lt_two_pow h
+
+theorem or_xor_two_pow (r k : Nat) (h : r < 2 ^ k) : (r ||| 2 ^ k) = r ^^^ 2 ^ k := by
+  apply Nat.eq_of_testBit_eq
+  intro i
+  have hr := testBit_false_of_lt h
+  simp only [Nat.testBit_or, Nat.testBit_xor, Nat.testBit_two_pow]
+  by_cases hi : k = i
+  · subst hi; simp [hr]
+  · simp [hi]
+
+theorem xor_xor_two_pow (r k : Nat) : (r ^^^ 2 ^ k) ^^^ 2 ^ k = r := by
+  rw [Nat.xor_assoc, Nat.xor_self, Nat.xor_zero]
+
+/-- the magnitude pattern of a domain value does not reach the sign bit -/
+theorem rneBits_lt_sign (f : Spec.FloatFmt) (hf : f = Spec.FloatFmt.f64 ∨ f = Spec.FloatFmt.f32)
+    (a : Int) (p : Nat) (ha : a ≠ 0) (ha0 : I128_MIN < a) (ha1 : a ≤ I128_MAX) (hp : p ≤ 18) :
+    Spec.rneBits f a.natAbs (10 ^ p) < 2 ^ (f.bits - 1) := by
+  have h := (rne_is_nearest f hf a p ha ha0 ha1 hp).2.1
+  refine Nat.lt_of_lt_of_le h ?_
+  rcases hf with rfl | rfl <;> decide
+
+/-- sign symmetry of the specification: for a non-zero coefficient of the domain, negating flips exactly the sign bit -/
+theorem spec_into_float_neg (f : Spec.FloatFmt) (hf : f = Spec.FloatFmt.f64 ∨ f = Spec.FloatFmt.f32)
+    (a : Int) (p : Nat) (ha : a ≠ 0) (ha0 : I128_MIN < a) (ha1 : a ≤ I128_MAX) (hp : p ≤ 18) :
+    Spec.intoFloat f (-a) p = Spec.intoFloat f a p ^^^ 2 ^ (f.bits - 1) := by
+  have hlt := rneBits_lt_sign f hf a p ha ha0 ha1 hp
+  unfold Spec.intoFloat
+  have hna : -a ≠ 0 := by omega
+  rw [if_neg ha, if_neg hna, Int.natAbs_neg]
+  generalize Spec.rneBits f a.natAbs (10 ^ p) = r at hlt
+  by_cases hs : a < 0
+  · have hs' : ¬ (-a < 0) := by omega
+    rw [if_pos hs, if_neg hs']
+    simp only [Nat.zero_shiftLeft, Nat.or_zero, Nat.one_shiftLeft]
+    rw [or_xor_two_pow r _ hlt, xor_xor_two_pow]
+  · have hs' : -a < 0 := by omega
+    rw [if_neg hs, if_pos hs']
+    simp only [Nat.zero_shiftLeft, Nat.or_zero, Nat.one_shiftLeft]
+    exact or_xor_two_pow r _ hlt
+
+theorem dom_neg {x : Dec} (hx : Dom x) : Dom ⟨-x.coeff, x.nfrac⟩ := by
+  unfold Dom I128_MIN I128_MAX at *
+  simp only
+  omega
+
+/-- sign symmetry: the bit pattern of `-d` is that of `d` with the sign bit (bit 63 / bit 31) flipped, for every Decimal of the
+    domain with a non-zero coefficient, both formats, every profile -/
+theorem into_float_neg (prof : Profile) (f : Spec.FloatFmt) (hf : f = Spec.FloatFmt.f64 ∨ f = Spec.FloatFmt.f32)
+    (d : Dec) (hd : Dom d) (ha : d.coeff ≠ 0) :
+    intoFloat prof f ⟨-d.coeff, d.nfrac⟩ = (fun b => b ^^^ 2 ^ (f.bits - 1)) <$> intoFloat prof f d := by
+  rw [into_float_spec prof f hf d hd, into_float_spec prof f hf _ (dom_neg hd)]
+  show Outcome.ok _ = Outcome.ok _
+  rw [spec_into_float_neg f hf d.coeff d.nfrac ha hd.1 hd.2.1 hd.2.2]
+
+/-- … and zero maps to `+0.0` whatever its representation: there is no negative zero among the results -/
+theorem into_float_zero (prof : Profile) (f : Spec.FloatFmt) (p : Nat) : intoFloat prof f ⟨0, p⟩ = .ok 0 := by
+  unfold intoFloat i128AsFloat
+  simp
+
+example : intoFloat Profile.dev .f64 ⟨-1, 1⟩ = .ok (4591870180066957722 ^^^ 2 ^ 63) ∧
+    intoFloat Profile.dev .f64 ⟨1, 1⟩ = .ok 4591870180066957722 ∧
+    intoFloat Profile.dev .f32 ⟨-99999999, 8⟩ = .ok (1065353216 + 2 ^ 31) ∧ intoFloat Profile.dev .f32 ⟨-0, 8⟩ = .ok 0 := by decide
+
+/-- the same with the model's negation: `f64::from(-d)` is `f64::from(d)` with the sign bit flipped -/
+theorem into_float_of_neg (prof : Profile) (f : Spec.FloatFmt) (hf : f = Spec.FloatFmt.f64 ∨ f = Spec.FloatFmt.f32)
+    (d : Dec) (hd : Dom d) (ha : d.coeff ≠ 0) :
+    (neg prof d >>= intoFloat prof f) = (fun b => b ^^^ 2 ^ (f.bits - 1)) <$> intoFloat prof f d := by
+  rw [neg_spec prof d hd, Outcome.bind_ok]
+  exact into_float_neg prof f hf d hd ha
 
 end Fpdec.Props.C12
